@@ -37,7 +37,11 @@ impl Tc {
                 }
                 x.ctors.iter().all(|(n, t)| y.ctors.iter().any(|(m, u)| n == m && self.eq_v(t, u)))
             }
-            | (VT::Prod(x), VT::Prod(y)) => x.len() == y.len() && x.iter().zip(y).all(|(p, q)| self.eq_v(p, q)),
+            | (VT::Prod(x), VT::Prod(y)) => {
+                // products associate to the right: A * B * C is A * (B * C)
+                let (x, y) = (flat_prod(x), flat_prod(y));
+                x.len() == y.len() && x.iter().zip(&y).all(|(p, q)| self.eq_v(p, q))
+            }
             | (VT::Named(l, x), VT::Named(m, y)) => l == m && self.eq_v(x, y),
             | (VT::Thk(x), VT::Thk(y)) => self.eq_c(x, y),
             | _ => false,
@@ -73,7 +77,10 @@ impl Tc {
         match (p, t) {
             | (Pat::Wild(pt), t) | (Pat::Var(_, pt), t) => self.want_v("pattern annotation", t, pt),
             | (Pat::Unit, VT::Unit) => Ok(()),
-            | (Pat::Tuple(ps), VT::Prod(ts)) if ps.len() == ts.len() => ps.iter().zip(ts).try_for_each(|(p, t)| self.pat_ok(p, t)),
+            | (Pat::Tuple(ps), VT::Prod(ts)) if ps.len() >= 2 && ps.len() <= flat_prod(ts).len() => {
+                let ts = regroup(&flat_prod(ts), ps.len());
+                ps.iter().zip(&ts).try_for_each(|(p, t)| self.pat_ok(p, t))
+            }
             | (Pat::Named(l, p), VT::Named(m, t)) if l == m => self.pat_ok(p, t),
             | (Pat::Ctor(d, k, p), VT::Data(e)) => {
                 let (name, _) = &self.data[*d].ctors[*k];
@@ -100,7 +107,10 @@ impl Tc {
                 Ok(())
             }
             | (Pat::Unit, VT::Unit) => Ok(()),
-            | (Pat::Tuple(ps), VT::Prod(ts)) if ps.len() == ts.len() => ps.iter().zip(ts).try_for_each(|(p, t)| self.infer_pat(p, t, out)),
+            | (Pat::Tuple(ps), VT::Prod(ts)) if ps.len() >= 2 && ps.len() <= flat_prod(ts).len() => {
+                let ts = regroup(&flat_prod(ts), ps.len());
+                ps.iter().zip(&ts).try_for_each(|(p, t)| self.infer_pat(p, t, out))
+            }
             | (Pat::Named(l, p), VT::Named(m, t)) if l == m => self.infer_pat(p, t, out),
             | (Pat::Ctor(d, k, p), VT::Data(e)) => {
                 let (name, _) = &self.data[*d].ctors[*k];
@@ -512,4 +522,25 @@ fn mut_c(tc: &Tc, ctx: &Ctx, c: &C, emit: &mut dyn FnMut(String, C)) {
             mut_c(tc, &c2, k, &mut |d, m| emit(d, C::ReadLine(*x, Box::new(m))));
         }
     }
+}
+
+/// the components of a product with the trailing product spliced in: `A * (B * C)` is `A * B * C`
+pub fn flat_prod(ts: &[VT]) -> Vec<VT> {
+    match ts.split_last() {
+        | Some((VT::Prod(inner), init)) => {
+            let mut v = init.to_vec();
+            v.extend(flat_prod(inner));
+            v
+        }
+        | _ => ts.to_vec(),
+    }
+}
+/// view a flat product of m components as one of n <= m: the last takes the remaining product
+fn regroup(ts: &[VT], n: usize) -> Vec<VT> {
+    if n >= ts.len() {
+        return ts.to_vec();
+    }
+    let mut v = ts[..n - 1].to_vec();
+    v.push(VT::Prod(ts[n - 1..].to_vec()));
+    v
 }
